@@ -218,6 +218,19 @@ func (s *kvGenState) endW(commit bool) {
 	}
 	s.working = nil
 	s.wOpen = false
+	if commit && s.rOpen {
+		// a read transaction opened before this commit is still open: it must keep seeing the state
+		// of its begin (snapshot); a reader opened afterwards sees the new state
+		s.g.Stats["reader-spans-commit"]++
+		for i := 1 + s.g.Rng.Intn(2); i > 0; i-- {
+			s.readOp("r")
+		}
+		if s.g.Rng.Intn(3) == 0 {
+			s.op("endr", "endr")
+			s.op("begin-read", "begin %s", pick(s.g.Rng, "r", "v"))
+			s.readOp("r")
+		}
+	}
 }
 
 func (s *kvGenState) iterScript() string {
@@ -589,6 +602,12 @@ func (s *kvGenState) exhaustive(maxLen int) {
 		} else {
 			s.op("exh-rollback", "rollback")
 		}
+		if count%8 == 0 {
+			// the reader opened before this sequence still sees the base state
+			s.op("exh-observe", "iter r %s - - a", B)
+		}
+		s.op("exh-observe", "endr")
+		s.op("exh-observe", "begin r")
 		s.op("exh-observe", "iter r %s - - a", B)
 		if count%16 == 0 {
 			s.op("exh-observe", "prefix r %s -", top)
@@ -681,6 +700,94 @@ func (s *kvGenState) siblingPrefix() {
 	s.op("sibling-prefix", "endr")
 }
 
+// readerSpansCommit: a read transaction is opened, then one or two write transactions change what
+// it has looked at (values, deleted keys, cleared / deleted / new buckets) and commit; the same
+// reads through the old reader must return what they returned before, a fresh reader the new state.
+func (s *kvGenState) readerSpansCommit() {
+	g := s.g
+	r := g.Rng
+	g.Reset()
+	s.committed = map[string]bool{}
+	s.working = nil
+	s.wOpen, s.rOpen = false, false
+	cl := "reader-spans-commit"
+	top := kvGoodNames[r.Intn(5)]
+	sub := kvGoodNames[r.Intn(5)]
+	pTop := kvPathTok([]string{top})
+	pSub := kvPathTok([]string{top, sub})
+	pNew := kvPathTok([]string{top, sub + "x"})
+	keys := make([][]byte, 3+r.Intn(3))
+	for i := range keys {
+		keys[i] = s.randKeyNonEmpty()
+	}
+	s.op(cl, "begin w")
+	s.op(cl, "create w %s", pTop)
+	s.op(cl, "create w %s", pSub)
+	for i, k := range keys {
+		s.op(cl, "put w %s %s %02x", pSub, hexTok(k), 0x10+i)
+		if i%2 == 0 {
+			s.op(cl, "put w %s %s %02x", pTop, hexTok(k), 0x20+i)
+		}
+	}
+	s.op(cl, "commit")
+	if r.Intn(4) == 0 {
+		s.op(cl, "reopen")
+	}
+	observe := func() {
+		s.op(cl, "names r /")
+		s.op(cl, "names r %s", pTop)
+		s.op(cl, "has r %s", pSub)
+		s.op(cl, "hasf r %s", pSub)
+		s.op(cl, "has r %s", pNew)
+		s.op(cl, "prefix r %s -", pSub)
+		s.op(cl, "iter r %s - - a", pTop)
+		s.op(cl, "get r %s %s", pSub, hexTok(keys[r.Intn(len(keys))]))
+		s.op(cl, "iterp r %s %s a", pSub, hexTok(keys[0][:1]))
+	}
+	s.op(cl, "begin %s", pick(r, "r", "v"))
+	if r.Intn(3) > 0 {
+		observe()
+	}
+	for round := 1 + r.Intn(2); round > 0; round-- {
+		s.op(cl, "begin %s", pick(r, "w", "u"))
+		for i := 2 + r.Intn(4); i > 0; i-- {
+			k := keys[r.Intn(len(keys))]
+			switch r.Intn(7) {
+			case 0, 1:
+				s.op(cl, "put w %s %s %02x", pSub, hexTok(k), 0x80+r.Intn(100))
+			case 2:
+				s.op(cl, "del w %s %s", pSub, hexTok(k))
+			case 3:
+				s.op(cl, "put w %s %s ee", pSub, hexTok(s.randKeyNonEmpty()))
+			case 4:
+				s.op(cl, "clear w %s", pick(r, pSub, pTop))
+			case 5:
+				s.op(cl, "delb w %s", pSub)
+				if r.Intn(2) == 0 {
+					s.op(cl, "create w %s", pSub)
+				}
+			default:
+				s.op(cl, "create w %s", pNew)
+				s.op(cl, "put w %s %s dd", pNew, hexTok(k))
+			}
+		}
+		if r.Intn(3) == 0 {
+			observe() // the writer is still open: nothing of it is visible either
+		}
+		if r.Intn(5) > 0 {
+			s.op(cl, "commit")
+		} else {
+			s.op(cl, "rollback")
+		}
+		observe()
+	}
+	s.op(cl, "endr")
+	s.op(cl, "begin %s", pick(r, "r", "v"))
+	observe()
+	s.op(cl, "endr")
+	s.op(cl, "raw")
+}
+
 func (s *kvGenState) randKeyNonEmpty() []byte {
 	for {
 		if k := s.randKey(); len(k) > 0 {
@@ -743,6 +850,7 @@ func genKv(g *Gen) {
 	for i := g.Scale(60, 3000); i > 0; i-- {
 		s.siblingPrefix()
 		s.ffPrefixIter()
+		s.readerSpansCommit()
 	}
 	for i := 0; i < nHist; i++ {
 		maxOps := 60
